@@ -34,12 +34,15 @@ REQ_TEXT = {"plain": "(require S)", "as": "(require S :as p)", "list": "(require
             "star": "(require S *)", "plain-exp": "(require S2)", "star-exp": "(require S2 *)"}
 
 
-def render_history(h):
-    """history of events -> Hy module text; call i stores its expansion in (get R i)"""
+def render_history(h, variant=0):
+    """history of events -> Hy module text; call i stores its expansion in (get R i).
+    variant 0: every scope is a function; otherwise the scopes rotate through function, class body and
+    comprehension (all three open a local macro scope)"""
     out = ["(setv R {})"]
     depth = 0
     fn = 0
     stack = []
+    kinds = ["fn", "class", "lfor"]
     for i, e in enumerate(h, 1):
         ev, n = e["ev"], e["n"]
         if ev == "def":
@@ -48,11 +51,12 @@ def render_history(h):
             out.append(REQ_TEXT[n])
         elif ev == "enter":
             fn += 1
-            stack.append(fn)
-            out.append(f"(defn f{fn} []")
+            kind = kinds[(variant + fn) % 3] if variant else "fn"
+            stack.append((fn, kind))
+            out.append({"fn": f"(defn f{fn} []", "class": f"(defclass C{fn} []", "lfor": f"(lfor hyv-q{fn} [0] (do"}[kind])
         elif ev == "exit":
-            k = stack.pop()
-            out.append(f"None) (f{k})")
+            k, kind = stack.pop()
+            out.append({"fn": f"None) (f{k})", "class": "None)", "lfor": "None))"}[kind])
         elif ev == "pragma":
             out.append("(pragma :warn-on-core-shadow False)")
         elif ev == "call":
@@ -138,8 +142,9 @@ def main_c35(run):
     nrun = 0
     for hi, rec in enumerate(hists + nest + sim):
         h = rec["h"]
-        text = render_history(h)
-        key = json.dumps([[e["ev"], e["n"]] for e in h])
+        variant = hi % 4          # a quarter all-function, the rest mixing functions, class bodies and comprehensions
+        text = render_history(h, variant)
+        key = json.dumps([[e["ev"], e["n"]] for e in h] + ([f"scopes:{variant}"] if variant else []))
         R, warned, err = run_history(text, f"hyv_macro_{hi}")
         run.case(key)
         if err:
